@@ -206,6 +206,7 @@ class C11(Prop):
             # a tag that serves as a dependency's head content is changed AFTER the dependency and the document were built:
             # what is emitted is the dependency as it is when the document is rendered
             ht = H.tags.title("Draft")
+            live_head = ht
             hd = H.HTMLDependency("livehead", "1.0", head=ht)
             kids = kids + [hd]
             doc = H.HTMLDocument(*kids, **kw)
@@ -235,7 +236,16 @@ class C11(Prop):
             doc.render(lib_prefix=g["prefix"], include_version=g["inclver"])      # the second render is the one judged
         res = doc.render(lib_prefix=g["prefix"], include_version=g["inclver"])
         out = res["html"]
-        return {"content": abstract_all(kids, H),
+        content = abstract_all(kids, H)
+        if how == "dep_head_changed" and kids:
+            # the expectation comes from the caller's own tag, not from what the dependency object holds
+            def patch(nodes):
+                for n_ in nodes:
+                    if n_["k"] == "dep" and n_["d"]["name"] == cps("livehead"):
+                        n_["d"] = dict(n_["d"], head=abstract_all([live_head], H))
+                    patch(n_["c"])
+            patch(content)
+        return {"content": content,
                 "args": [{"n": k, "v": cps(str(v))} for k, v in g["args"]],
                 "prefix": cps(g["prefix"] or ""), "inclver": bool(g["inclver"]),
                 "events": tokenize(out), "doctypeFirst": out.startswith("<!DOCTYPE html>\n"),
